@@ -120,6 +120,16 @@ fn main() {
         say("fixed.overlay.root_lists_whiteout", names.iter().any(|n| n == ".whiteout"));
     }
     {
+        // overlay.read_dir ignored entry types: a file served by a lower layer was listed as an empty directory,
+        // and a directory re-created over a lower-layer file could not be listed when the lower layer refuses read_dir on files
+        let (ov, _u, _l) = overlay_over(|l| { l.join("f").unwrap().create_file().unwrap(); });
+        say("fixed.overlay.read_dir_lists_a_file", ov.join("f").unwrap().read_dir().is_ok());
+        let f = ov.join("f").unwrap();
+        f.remove_file().unwrap();
+        f.create_dir().unwrap();
+        say("fixed.overlay.read_dir_dir_over_lower_file_fails", f.read_dir().is_err());
+    }
+    {
         let root: VfsPath = vfs::EmbeddedFS::<Emb>::new().into();
         let r = std::panic::catch_unwind(std::panic::AssertUnwindSafe(|| root.open_file().is_err()));
         say("fixed.embedded.open_file_root_panics", r.is_err());
